@@ -1009,6 +1009,165 @@ def corpus_string_instances(R, r):
             R.fail("C01:constructor-raises:" + type(ex).__name__, f"a String instance with spare room (capacity {how}) as a value: {type(ex).__name__}: {str(ex)[:160]}", ctx)
 
 
+def corpus_refusals(R, r):
+    """C11, oracle only: (a) fields declared through an explicit `xo.Field(type, default=...)` refuse what bare-typed fields refuse;
+    (b) nested lists that are ragged only deep inside a LATER block are no value of any shape.  Every refusal leaves the buffer as it was."""
+    xo = common.import_xobjects()
+    import numpy as np
+    uid = next(_rd_uid)
+    ctx = {"component": "heap", "corpus": "refusals"}
+
+    def refused(what, buf, fn):
+        img = bytes(buf.to_bytearray(0, buf.capacity))
+        try:
+            fn()
+            R.fail("C11:misfit-accepted", f"{what} was accepted", ctx)
+        except Exception:
+            R.tags["corpus.refusals.refused"] += 1
+        if bytes(buf.to_bytearray(0, buf.capacity)) != img:
+            R.fail("C11:error-with-side-effect", f"{what}: the buffer changed", ctx)
+
+    # (a)
+    D = type(xo.Struct)(f"Decl{uid}", (xo.Struct,), {
+        "n": xo.Int64, "v": xo.Field(xo.Float64[:], default=[1.0, 2.0]), "s": xo.Field(xo.String, default="ab"),
+        "m": xo.Field(xo.Int64[:, :], default=[[1, 2], [3, 4]]), "t": xo.Int64[:]})
+    for kind in ("numpy", "bytearray"):
+        buf = alloc_buffer(xo, kind)
+        try:
+            d = D(n=5, t=[7, 8], _buffer=buf)
+            guard = xo.String("neighbour", _buffer=buf)
+        except Exception as ex:
+            R.fail("C11:corpus-raises", f"struct with declared fields: {type(ex).__name__}: {str(ex)[:120]}", ctx)
+            continue
+        for name, bad in (("v", [1.0, 2.0, 3.0, 4.0, 5.0, 6.0]), ("v", [1.0]), ("v", np.zeros(5)), ("s", "x" * 40),
+                          ("m", [[1, 2, 3], [4, 5, 6]]), ("m", [[1, 2]]), ("t", [1, 2, 3]), ("t", [])):
+            refused(f"declared-field struct: {name} = {bad!r} (another length / shape / too long)", buf, lambda: setattr(d, name, bad))
+        try:
+            d.v = [3.0, 4.0]
+            d.s = "c"
+            d.m = [[5, 6], [7, 8]]
+            ok = (list(d.v) == [3.0, 4.0] and d.s == "c" and [int(d.m[i, j]) for i in range(2) for j in range(2)] == [5, 6, 7, 8]
+                  and list(d.t) == [7, 8] and int(d.n) == 5 and guard.to_str() == "neighbour")
+        except Exception as ex:
+            ok = f"{type(ex).__name__}: {str(ex)[:100]}"
+        if ok is not True:
+            R.fail("C10:set-wrong", f"declared-field struct: fitting assignments give v={list(d.v)} s={d.s!r} t={list(d.t)} ({ok})", ctx)
+    # (b)
+    ragged = [[[[10, 20], [30, 40]], [[50, 60], [70, 80, 90]]], [[[1, 2], [3, 4]], [[5, 6], [7]]], [[[1, 2], [3, 4]], [[5, 6]]],
+              [[[1, 2], [3, 4]], [[5, 6], [7, 8]], [[9]]], [[[1, 2], [3, 4]], [[5, 6], 7]]]
+    for Cls in (xo.Float64[2, 2, 2], xo.Float64[:, :, :], xo.Int32[:, 2, :]):
+        buf = alloc_buffer(xo, "numpy")
+        try:
+            arr = Cls(np.arange(8).reshape(2, 2, 2), _buffer=buf)
+            xo.String("neighbour", _buffer=buf)
+        except Exception as ex:
+            R.fail("C11:corpus-raises", f"{Cls.__name__}: {type(ex).__name__}: {str(ex)[:120]}", ctx)
+            continue
+        for rg in ragged:
+            refused(f"{Cls.__name__} (2,2,2) <- nested list {rg!r} that has no shape", buf, lambda: arr._update(rg))
+            refused(f"{Cls.__name__}({rg!r}): a nested list that has no shape", buf, lambda: Cls(rg, _buffer=buf))
+        if [float(arr[i, j, k]) for i in range(2) for j in range(2) for k in range(2)] != [float(x) for x in range(8)]:
+            R.fail("C11:error-with-side-effect", f"{Cls.__name__}: the array changed after refused updates", ctx)
+
+
+def corpus_array_values(R, r):
+    """existing ARRAYS as values (oracle only): (a) a source with spare room between its items (an item rewritten by a shorter text)
+    is copied item-wise into the room planned for it - nothing outside the reserved extents changes, the size reported is the extent;
+    (b) an array of a DIFFERENT class that happens to have the same generated name (item struct of the same name, fields in another
+    order) and byte size is converted by field names, not copied byte for byte"""
+    xo = common.import_xobjects()
+    uid = next(_rd_uid)
+    ctx = {"component": "heap", "corpus": "arrays-as-values"}
+    A = xo.String[:]
+    for cap2 in (256, 64):
+        try:
+            b1 = alloc_buffer(xo, "numpy")
+            src = A(["x" * 30, "tail", "yy"], _buffer=b1)
+            src[0] = "c"                                   # keeps its room: 40 bytes for one character
+            b2 = xo.ContextCpu().new_buffer(cap2)
+            b2.update_from_buffer(0, bytes([0xA5]) * cap2)
+            log, orig = [], b2.allocate
+            b2.allocate = lambda size, align=True, _o=orig, _l=log: (_l.append((int(_o(size) if align is True else _o(size, align)), int(size))) or _l[-1][0])
+            img0 = bytes(b2.to_bytearray(0, b2.capacity))
+            try:
+                cp = A(src, _buffer=b2)
+            finally:
+                del b2.allocate
+            img1 = bytes(b2.to_bytearray(0, b2.capacity))
+            wild = [i for i in range(min(len(img0), len(img1))) if img0[i] != img1[i] and not any(o <= i < o + n_ for o, n_ in log)]
+            if wild:
+                R.fail("C03:construction-wrote-outside", f"String[:](source with spare room): bytes {wild[:6]} outside the reserved extents {log} changed", ctx)
+            own = [(o, n_) for o, n_ in log if o == int(cp._offset)]
+            if not own or own[0][1] != int(cp._get_size()):
+                R.fail("C03:size-vs-extent", f"String[:](source with spare room): reports size {int(cp._get_size())} at {int(cp._offset)}, reserved {log}", ctx)
+            if [cp[i] for i in range(3)] != ["c", "tail", "yy"]:
+                R.fail("C09:copy-differs", f"String[:](source with spare room) reads {[cp[i] for i in range(3)]}", ctx)
+            R.tags["corpus.array-values.spare-room"] += 1
+        except Exception as ex:
+            R.fail("C01:constructor-raises:" + type(ex).__name__, f"String[:](source with spare room): {type(ex).__name__}: {str(ex)[:160]}", ctx)
+    # (b)
+    P1 = type(xo.Struct)(f"Pt{uid}", (xo.Struct,), {"x": xo.Int64, "y": xo.Float64})
+    P2 = type(xo.Struct)(f"Pt{uid}", (xo.Struct,), {"y": xo.Float64, "x": xo.Int64})
+    H = type(xo.Struct)(f"PtH{uid}", (xo.Struct,), {"k": xo.Int64, "ps": P1[3]})
+    vals = [(1, 1.5), (2, -2.25), (3, 1e10)]
+    try:
+        b1 = alloc_buffer(xo, "numpy")
+        v = P2[3]([{"x": x, "y": y} for x, y in vals], _buffer=b1)
+        for what, mk in (("Pt[3](other-class array of the same name)", lambda: P1[3](v, _buffer=b1)),
+                         ("Holder(ps=other-class array of the same name)", lambda: H(k=7, ps=v, _buffer=b1).ps),
+                         ("arr._update(other-class array of the same name)", lambda: _upd(P1[3]([{"x": 0, "y": 0.0}] * 3, _buffer=b1), v))):
+            a = mk()
+            got = [(int(a[i].x), float(a[i].y)) for i in range(3)]
+            if got != vals:
+                for key in ("C05:value-differs-from-source", "C01:value-differs"):
+                    R.fail(key, f"{what}: reads {got}, the source holds {vals} (the two classes order their fields differently)", ctx)
+            R.tags["corpus.array-values.same-name-other-layout"] += 1
+    except Exception as ex:
+        R.fail("C01:constructor-raises:" + type(ex).__name__, f"array of another class with the same name as a value: {type(ex).__name__}: {str(ex)[:160]}", ctx)
+
+
+def corpus_two_accessors(R, r):
+    """two differently shaped instances of ONE N-dimensional dynamic-shape array class reached through nested accessors: an accessor
+    that is kept keeps reading ITS array after the other one was obtained (shape and strides belong to the accessor)"""
+    xo = common.import_xobjects()
+    import numpy as np
+    uid = next(_rd_uid)
+    ctx = {"component": "heap", "corpus": "two-accessors"}
+    for M, sh1, sh2 in ((xo.Float64[:, :], (2, 3), (3, 2)), (xo.Int32[:, :, :], (2, 1, 3), (1, 3, 2)), (xo.Float64[:1, :0], (2, 3), (4, 2)),
+                        (xo.Int64[:, 2], (3, 2), (1, 2))):
+        try:
+            S = type(xo.Struct)(f"TwoM{uid}x{len(sh1)}{M.__name__}", (xo.Struct,), {"k": xo.Int64, "a": M, "b": M})
+            v1 = np.arange(int(np.prod(sh1))).reshape(sh1) + 1
+            v2 = (np.arange(int(np.prod(sh2))).reshape(sh2) + 1) * 100
+            buf = alloc_buffer(xo, "numpy")
+            for what, get in (("struct fields", lambda: (lambda o: (o.a, lambda: o.b))(S(k=1, a=v1, b=v2, _buffer=buf))),
+                              ("array items", lambda: (lambda o: (o[0], lambda: o[1]))(M[:]([v1, v2], _buffer=buf)))):
+                xa, other = get()
+                xb = other()
+                got = [float(xa[idx]) for idx in np.ndindex(*sh1)]
+                want = [float(v1[idx]) for idx in np.ndindex(*sh1)]
+                got_b = [float(xb[idx]) for idx in np.ndindex(*sh2)]
+                if got != want or got_b != [float(v2[idx]) for idx in np.ndindex(*sh2)]:
+                    for key in ("C01:value-differs", "C06:handle-differs-from-view"):
+                        R.fail(key, f"{M.__name__} {what}: x = first (shape {sh1}); y = second (shape {sh2}); x reads {got[:8]}, it was built "
+                               f"from {want[:8]}; y reads {got_b[:6]}", ctx)
+                R.tags["corpus.two-accessors"] += 1
+        except Exception as ex:
+            R.fail("C01:constructor-raises:" + type(ex).__name__, f"two accessors of {M.__name__}: {type(ex).__name__}: {str(ex)[:160]}", ctx)
+
+
+def _upd(a, v):
+    a._update(v)
+    return a
+
+
+def alloc_buffer(xo, kind):
+    from . import alloc as _alloc
+    b = _alloc.make_buffer(xo, kind, 1024, 1, None)
+    b.update_from_buffer(0, bytes([0xA5]) * 1024)
+    return b
+
+
 def run_all(tier, seed, n=None):
     r = random.Random(seed * 999331 + 29)
     R = L.Run()
@@ -1020,6 +1179,9 @@ def run_all(tier, seed, n=None):
     corpus_ref_convertible(R, r)
     corpus_copy_twice(R, r)
     corpus_string_instances(R, r)
+    corpus_refusals(R, r)
+    corpus_array_values(R, r)
+    corpus_two_accessors(R, r)
     for _ in range(n):
         run_case(R, r)
     cases, cur = [], []
